@@ -176,6 +176,21 @@ CHECKS = {
             "Bounded by depth except the fixpoint configurations; one fault per history at library-to-PIL call "
             "boundaries; PIL and requests (against a loopback server) trusted.",
             "DESIGN.md 3/C11, B.5"),
+    "C16": ("model_checking",
+            "programs x explicit-state BFS over operator histories against a dict-based reference model",
+            "Bounded-exhaustive model checking on the real implementation: every rooted tree of <= 4 render classes (up "
+            "to isomorphism) x every subset of ArgsNamespace owners (+ a 2-field owner, + a field-inheriting namespace "
+            "subclass) x eager/lazy interning of defaults; from the pool of default objects every history of <= 3 (quick; "
+            "depth 2 on the largest programs) / 4 (thorough, <= 2 owners) operations of the full constructor / update / "
+            "convert / | / + / to_render_args / ns.update / Args() alphabet is executed. Each transition is judged by a "
+            "dict-based reference model for value / acceptance / documented error, by == / hash / [] / in laws, and by "
+            "before/after snapshots of every pre-existing object, every interned default and every class table. Plus "
+            "the full product of args/data owner subsets (4823 class tables) and a menu of malformed namespace class "
+            "definitions.",
+            "States merged by object value + interned bits with RenderArgs._interned rewound between branches; guarded "
+            "by linear re-execution of every violation on fresh classes and by unmerged enumeration of all short "
+            "histories. Out of scope: RenderArgs subclasses, multiple inheritance of render classes, non-int field values.",
+            "DESIGN.md 3/C16, B.2"),
 }
 
 PENDING_REASON = "check not built yet in this round (design in DESIGN.md section 3); not claimed"
